@@ -3,6 +3,8 @@
 # run the quick checks against it (VERIF_REPO), revert.
 name=$1; shift
 wt=/tmp/wt_eval
+# scratch worktree of /repo's HEAD, created on demand (remove it when done: git -C /repo worktree remove --force /tmp/wt_eval)
+[ -d "$wt" ] || git -C /repo worktree add -q --detach "$wt" || exit 9
 git -C $wt checkout -q -- . ; git -C $wt clean -fdq
 git -C $wt apply /verif/seeded/$name/patch.diff || { echo "$name: patch does not apply to current HEAD"; exit 9; }
 for c in "$@"; do
